@@ -24,19 +24,25 @@ Renamings == {"none", "order_preserving", "order_reversing", "shuffle"}
 \* how the fit on the renamed labels is made: by a fresh estimator, or by RE-FITTING the same object whose solver
 \* warm-starts from the previous coefficients (binary estimators; the laws are about the fitted model, not its past)
 Refits == {"fresh", "same_object_warm"}
+\* "null_imbalanced": classes in proportion 4:1 and a regularisation above the critical strength, so that the fitted
+\* model is the intercept alone (the log-odds): which label is encoded +1 then decides the SIGN of everything the
+\* solver sees, and a renaming that reverses the order must give exactly the negated model
+Regimes == {"regular", "null_imbalanced"}
 
 VARIABLES stage, sc
 vars == <<stage, sc>>
 Init == stage = "pick" /\ sc = [est |-> "", alphabet |-> "", k |-> 2, fit_intercept |-> TRUE,
-                                rename |-> "none", storage |-> "dense", refit |-> "fresh"]
+                                rename |-> "none", storage |-> "dense", refit |-> "fresh", regime |-> "regular"]
 Pick == /\ stage = "pick"
         /\ \E e \in Estimators : \E a \in Alphabets : \E k \in 2..4 : \E fi \in BOOLEAN : \E r \in Renamings :
-           \E st \in {"dense", "csc"} : \E rf \in Refits :
+           \E st \in {"dense", "csc"} : \E rf \in Refits : \E rg \in Regimes :
+             /\ (rg = "null_imbalanced" => k = 2 /\ fi /\ e \in {"SparseLogisticRegression", "GLE_Logistic"}
+                                            /\ r \in {"order_reversing", "order_preserving"} /\ rf = "fresh")
              /\ (rf = "same_object_warm" => r # "none" /\ k = 2)
              /\ (a \in {"pm1", "zero_one", "bools"} => k = 2)
              /\ (e \in {"LinearSVC", "GLE_SVC"} => ~fi)        \* no intercept in the dual formulation
              /\ sc' = [est |-> e, alphabet |-> a, k |-> k, fit_intercept |-> fi, rename |-> r, storage |-> st,
-                        refit |-> rf]
+                        refit |-> rf, regime |-> rg]
              /\ stage' = "emit"
 \* expected effect of the renaming on the fitted rows, per the model
 Effect == IF sc.rename \in {"none", "order_preserving"} THEN "rows_unchanged"
